@@ -59,6 +59,14 @@ func (vc *ConnCursor) Rowid() (int64, error) {
 }
 
 func (vc *ConnCursor) Column(context *sqlite.VirtualTableContext, i int) error {
+	if context.NoChange() {
+		// Column not assigned by the UPDATE in progress: leave the result
+		// unset so that Update() sees it as no-change. Otherwise setting
+		// only the deadline would also set write_time to what it shows,
+		// which inside a transaction is the time the transaction fixed for
+		// itself, cut to whole seconds.
+		return nil
+	}
 	switch i {
 	case 0:
 		if vc.vm.sc.deadline.IsZero() {
@@ -115,9 +123,11 @@ func (c *ConnModule) Update(value sqlite.Value, values ...sqlite.Value) error {
 				return fmt.Errorf("write_time: must be like %s", s3db.SQLiteTimeFormat)
 			}
 		}
+		// from here on the write time is the user's, not the one the open
+		// transaction fixed for itself (which COMMIT/ROLLBACK would clear)
+		c.sc.txFixedWriteTime = false
 	}
 
-	c.sc.txFixedWriteTime = false
 	c.sc.ResetContext()
 
 	return nil
